@@ -22,7 +22,10 @@ class LUSolver(LinearSolver):
         # of 0), the solves would then return huge but finite garbage
         pivots = np.abs(self.solver.U.diagonal())
 
-        if pivots.size > 0 and pivots.min() <= np.finfo(pivots.dtype).eps * pivots.max():
+        # (rounding errors accumulate with the dimension: same tolerance as numpy.linalg.matrix_rank)
+        tol = pivots.size * np.finfo(pivots.dtype).eps
+
+        if pivots.size > 0 and pivots.min() <= tol * pivots.max():
             raise LinearSolverError("LU decomposition failed: singular matrix")
 
     def solve(self, rhs, trans=False, initial_sol=None):
